@@ -117,6 +117,11 @@ def items(tier, seed):
     for tr in (('LRG',), ('LRG', 'ELG'), ('ELG', 'QSO')):
         out.append(dict(name=f'H2P1/{"+".join(tr)}', kind='hod', H=2, P=1, tracers=tr, rsd=False, ok='box', ranks=True, nt=2))
         out.append(dict(name=f'H1P2/{"+".join(tr)}', kind='hod', H=1, P=2, tracers=tr, rsd=False, ok='box', ranks=False, nt=2))
+    # centrals-then-satellites assembly: fast_concatenate for every small (centrals, satellites, thread) triple -- the
+    # proportional thread split only goes wrong for particular ratios (obligation shared with C10, where it is defined)
+    nmax, tmax = (4, 4) if tier == 'quick' else (6, 8)
+    for nt in range(1, tmax + 1):
+        out.append(dict(name=f'concat/Nthread={nt}', kind='concat', nt=nt, nmax=nmax))
     if tier == 'thorough':
         for tr in subsets:
             out.append(dict(name=f'H2P2/{"+".join(tr)}', kind='hod', H=2, P=2, tracers=tr, rsd=False, ok='box', ranks=True, nt=2))
@@ -125,6 +130,9 @@ def items(tier, seed):
 
 
 def run(item):
+    if item['kind'] == 'concat':
+        from checks import c10
+        return c10.run(item)
     if item['kind'] == 'nested':
         return common.run_paths(body_nested)[0]
     if item['kind'] == 'occupation':
@@ -138,6 +146,9 @@ def validate(tier):
 
 
 def replay(e, path):
+    if e['info'].get('case', {}).get('kind') == 'concat':
+        from checks import c10
+        return c10.replay(e, path)
     return hodlib.replay(e, path)
 
 
